@@ -75,7 +75,10 @@ DA2 = ["test/a", [["string", "s"], ["varint", "k"], ["uint16", "port"], ["varint
 # concatenation of field names and types (k varint q stringlist w string = k varint q string listw string)
 DX1 = ["t/x", [["varint", "k"], ["stringlist", "q"], ["string", "w"]]]
 DX2 = ["t/x", [["varint", "k"], ["string", "q"], ["string", "listw"]]]
-DESCS = [DA, DB, DC, DA2, DX1, DX2]
+# field names that are Python keywords (the library generates another constructor for such record types), holding
+# values that are falsy but not None
+DK = ["t/kw", [["varint", "k"], ["string", "from"], ["varint", "in"], ["boolean", "class"], ["string[]", "is"]]]
+DESCS = [DA, DB, DC, DA2, DX1, DX2, DK]
 S_POOL = ["abc", "a", "ABC", "b", "x y", "q=1", "é", "a,b", "", "it's", "日本"]
 FIELD_POOL = ["k", "n", "s", "b", "t1", "t2", "l", "f", "data", "port", "ts", "zz", "_source", "q", "listw"]
 MISSING = object()
@@ -185,6 +188,9 @@ def _gen_record(r, ds):
         none = r.chance(15)
         if n == "k":
             v = V.I(r.randint(0, 6))
+        elif ds[0] == "t/kw":
+            v = {"from": V.S(r.choice(["", "", "x"])), "in": V.I(r.choice([0, 0, 7])), "class": ["bool", r.choice([0, 0, 1])],
+                 "is": ["list", [] if r.chance(60) else [V.S("a")]]}[n]
         elif n == "n":
             v = V.NONE if none else V.I(r.choice([0, 1, 2, 3, 3, 5]))
         elif n == "s":
